@@ -197,6 +197,14 @@ func buildBuilder(f []string) (*acmelib.CANIDBuilder, []bop, []string) {
 		o := bop{atoi(f[0]), atoi(f[1]), atoi(f[2])}
 		f = f[3:]
 		ops = append(ops, o)
+	}
+	applyOps(b, ops)
+	return b, ops, f
+}
+
+// applyOps appends the operations to the builder through the public API.
+func applyOps(b *acmelib.CANIDBuilder, ops []bop) {
+	for _, o := range ops {
 		switch {
 		case o.k == 0 && o.l == 2:
 			b.UseMessagePriority(o.f)
@@ -212,7 +220,6 @@ func buildBuilder(f []string) (*acmelib.CANIDBuilder, []bop, []string) {
 			b.UseBitMask(o.f, o.l)
 		}
 	}
-	return b, ops, f
 }
 
 func showBuilderOps(b *acmelib.CANIDBuilder) string {
@@ -346,7 +353,30 @@ func (e *canidExec) Do(line string) string {
 				bus.SetCANIDBuilder(b)
 			}
 		} else if att >= 1 {
+			// observe, then edit: the message, its node and (for a custom builder) the builder's
+			// operations start out different, the CAN-ID is asked for once, and only then they get
+			// the values of the line — the CAN-ID is a function of the CURRENT model
+			stale := att == 2 && (p*7+m+n)%3 == 1 && !(st == 1 && staticFirst)
 			node := acmelib.NewNode("n", acmelib.NodeID(n), 1)
+			// exactly ONE of the four inputs starts out different (a stale answer keyed by the others)
+			which := int((p + m/3 + n/3) % 4)
+			if which == 3 && def {
+				which = 2
+			}
+			if stale {
+				switch which {
+				case 0:
+					msg = acmelib.NewMessage("m", acmelib.MessageID(m^1), 8)
+					msg.SetPriority(acmelib.MessagePriority(p))
+				case 1:
+					msg.SetPriority(acmelib.MessagePriority((p + 1) % 4))
+				case 2:
+					node = acmelib.NewNode("n", acmelib.NodeID(n^1), 1)
+				default:
+					b.RemoveAllOperations()
+					b.UseNodeID(1, 3).UseMessageID(4, 9)
+				}
+			}
 			ni := node.Interfaces()[0]
 			bus := acmelib.NewBus("bus")
 			if att >= 2 && (m%2 == 0) { // attach to the bus before or after adding the message
@@ -393,6 +423,25 @@ func (e *canidExec) Do(line string) string {
 				bus.SetCANIDBuilder(b)
 			} else if (p+m+n)%4 != 0 {
 				bus.SetCANIDBuilder(nil)
+			}
+			if stale {
+				_ = msg.GetCANID()
+				_ = msg.String()
+				switch which {
+				case 0:
+					if err := msg.UpdateID(acmelib.MessageID(m)); err != nil {
+						return "err " + err.Error()
+					}
+				case 1:
+					msg.SetPriority(acmelib.MessagePriority(p))
+				case 2:
+					if err := node.UpdateID(acmelib.NodeID(n)); err != nil {
+						return "err " + err.Error()
+					}
+				default:
+					b.RemoveAllOperations()
+					applyOps(b, ops)
+				}
 			}
 			switch att { // detach again: the message is no longer attached to a bus
 			case 3:
